@@ -13,6 +13,6 @@ variable {m n : Nat} [NeZero m] [NeZero n]
 
 theorem tie_entropy_weights (A : Mat m n α) : (Gen.entropy_weights ⟨A⟩).v = Weighters.entropyWeights A := by
   funext j
-  simp only [Gen.entropy_weights, Np.entropy, Np.shape0, Np.sum, Np.divide, Np.subtract, Bc.zw, Red.red, Weighters.entropyWeights,
+  simp only [Gen.entropy_weights, Np.entropy, Np.shape0, Np.sum, Np.sum_all, SumAll.sumAll, Np.divide, Np.subtract, Bc.zw, Red.red, Weighters.entropyWeights,
     Weighters.normSum, Weighters.scipyEntropy, Weighters.entr, Weighters.tab_get]
 end Skc.Tie
